@@ -2,7 +2,8 @@
 import re
 
 import anchors
-from core import (BA, call_matches, callee_paths, op_local, op_place, op_const, const_int, const_str, place_fields, taint, str_consts)
+from core import (BA, call_matches, callee_paths, op_local, op_place, op_const, const_int, const_str, place_fields, taint, str_consts, closure_sites)
+from facts import strip_generics
 from rules import common, sqlc
 from rules.C06 import backward_direct, env_setters
 from rules.C07 import dedupe_rule
@@ -188,26 +189,67 @@ def run(ctx):
     # ---- R15.10 (F-W): the directories that decide where the state directory goes are cleaned spellings
     ctx.rule("R15.10", "Env::init: every target directory that enters the common-prefix computation of the project base has passed helpers::normpath (abs_path alone keeps `sub/../x`, whose prefix with the cwd is `sub`)")
     if cp:
-        pushes = [i for i in eba.calls(r"alloc::vec::Vec::push") if eba.path([i], cp) is not None]
+        JOIN = r"helpers::abs_path|std::path::Path::join"
+        CLEAN = r"helpers::normpath|std::path::Path::canonicalize|std::fs::canonicalize|state::realdirpath"
+
+        def joined_then_cleaned(body, v):
+            """(is a directory made absolute here, was cleaned *after* it was anchored): the value goes back to a cleaning
+            call whose operand already was the joined path, and no further join is applied to the cleaned value
+            (`abs_path(cwd, normpath(par))` keeps a leading `..`: `<cwd>/..` shares every component with the cwd)."""
+            bba = BA.of(body)
+            joined_t = taint(body, src_call=lambda t_: call_matches(t_, JOIN), mode="derived")
+            inj = lambda l: l is not None and (l in joined_t or any(x in joined_t for x in bba.ref_chain(l)))
+            if not inj(v):
+                return False, False
+            good = [c for c in bba.calls(CLEAN) if any(inj(op_local(a_)) for a_ in body.blocks[c]["term"]["args"])]
+            if not good:
+                return True, False
+            ct = taint(body, seeds={body.blocks[c]["term"]["dest"]["l"] for c in good}, mode="derived")
+            inc = lambda l: l is not None and (l in ct or any(x in ct for x in bba.ref_chain(l)))
+            if not inc(v):
+                return True, False
+            for j in bba.calls(JOIN):
+                tj = body.blocks[j]["term"]
+                if any(inc(op_local(a_)) for a_ in tj["args"]):
+                    after = taint(body, seeds={tj["dest"]["l"]}, mode="derived")
+                    if v in after or any(x in after for x in bba.ref_chain(v)):
+                        return True, False
+            return True, True
+
         cwd_l = {ei.blocks[c]["term"]["dest"]["l"] for c in cd}
         cwd_direct2 = taint(ei, seeds=cwd_l, mode="direct", through=re.compile(r"core::iter::sources::once::once|core::convert::AsRef::as_ref")) if cwd_l else set()
         n = 0
-        joined_t = taint(ei, src_call=lambda t_: call_matches(t_, r"helpers::abs_path|std::path::Path::join"), mode="derived")
-        cleaned_t = taint(ei, src_call=lambda t_: call_matches(t_, r"helpers::normpath|std::path::Path::canonicalize|std::fs::canonicalize|state::realdirpath"), mode="derived")
-        for i in pushes:
+        sites = []
+        for i in [i for i in eba.calls(r"alloc::vec::Vec::push") if eba.path([i], cp) is not None]:
             a1 = op_local(ei.blocks[i]["term"]["args"][1])
             if a1 is None or ei.locals[a1] not in ("std::path::PathBuf", "alloc::borrow::Cow<'_, std::path::Path>", "&std::path::Path"):
                 continue
             if a1 in cwd_direct2 or any(x in cwd_direct2 for x in eba.ref_chain(a1)):
                 continue    # the cwd itself (already canonical: getcwd)
-            if not (a1 in joined_t or any(x in joined_t for x in eba.ref_chain(a1))):
+            sites.append((ei, a1, ctx.where(ei, i)))
+        # the same collection built by an iterator adapter: the closure's result is the directory
+        cp_args = {op_local(a_) for c in cp for a_ in ei.blocks[c]["term"]["args"] if op_local(a_) is not None}
+        for (bb_, j_, dl, ck, _) in closure_sites(ei):
+            cb = prog.bodies.get(ck)
+            if cb is None or cb.kind.lower() != "closure":
+                continue
+            users = [c for c in eba.all_calls() if any(op_local(a_) == dl or dl in eba.ref_chain(op_local(a_)) for a_ in ei.blocks[c]["term"]["args"] if op_local(a_) is not None)]
+            flows = False
+            for c in users:
+                tt = taint(ei, seeds={ei.blocks[c]["term"]["dest"]["l"]}, mode="derived")
+                if any(a_ in tt or any(x in tt for x in eba.ref_chain(a_)) for a_ in cp_args):
+                    flows = True
+            if flows:
+                sites.append((cb, 0, cb.span))
+        for (body_, v_, where_) in sites:
+            is_dir, cleaned = joined_then_cleaned(body_, v_)
+            if not is_dir:
                 continue    # not a target directory made absolute here
             n += 1
-            cleaned = a1 in cleaned_t or any(x in cleaned_t for x in eba.ref_chain(a1))
-            ctx.ob("R15.10", "Env::init|target-dir#%d|cleaned-before-common-prefix" % n, cleaned, where=ctx.where(ei, i),
-                   detail="the target's directory is cleaned (normpath) before it is compared with the others and the cwd" if cleaned else
+            ctx.ob("R15.10", "Env::init|target-dir#%d|cleaned-before-common-prefix" % n, cleaned, where=where_,
+                   detail="the target's directory is anchored at the cwd and then cleaned (normpath) before it is compared with the others and the cwd" if cleaned else
                    "an uncleaned spelling enters the common prefix: `cd sub && redo ../x/a` in a project without .redo puts the state directory into sub/, where no other spelling of x/a finds it")
-        ctx.floor("R15.10", "target directories pushed for the common prefix in Env::init", n, 1)
+        ctx.floor("R15.10", "target directories entering the common prefix in Env::init", n, 1)
     realdirpath_rules(ctx, "R15.9")
 
 
@@ -244,10 +286,49 @@ def realdirpath_rules(ctx, rid):
         if any(op_local(a) is not None and is_dot_path(op_local(a)) for a in t["args"]):
             ne = any(q.endswith("::ne") for q in callee_paths(t))
             dot_edges.append((sw, f_t if ne else t_t))
+    # the other way to learn that a name has no directory part: the search for its last separator found none
+    # (`None` of an iterator search whose predicate is std::path::is_separator, tested directly or through `?`)
+    def _sep_closure(t):
+        for a in t["args"]:
+            la = op_local(a)
+            if la is None:
+                continue
+            for x in [la] + list(rba.ref_chain(la)):
+                d = rba.single_def(x)
+                if d and d[0] == "stmt" and d[3]["k"] == "agg" and d[3].get("def"):
+                    cb = prog.bodies.get(strip_generics(d[3]["def"])) or prog.bodies.get(d[3]["def"])
+                    if cb is not None and BA.of(cb).calls(r"std::path::is_separator"):
+                        return True
+        return False
+    for c in rba.all_calls():
+        t = rd.blocks[c]["term"]
+        if not any(re.search(r"::(rposition|position|rfind|find|find_map|rsplitn|rsplit_once|rsplit)$", q) for q in callee_paths(t)) or not _sep_closure(t):
+            continue
+        opt = {t["dest"]["l"]}
+        trybr = set()
+        for i in rba.all_calls():
+            ti = rd.blocks[i]["term"]
+            if any(re.fullmatch(r"(<.* as )?core::ops::try_trait::Try>?::branch", q) for q in callee_paths(ti)) and op_local(ti["args"][0]) in opt:
+                trybr.add(ti["dest"]["l"])
+        for i in sorted(rba.live):
+            ti = rd.blocks[i]["term"]
+            if ti["t"] != "switch":
+                continue
+            dl = op_local(ti["discr"])
+            d = rba.single_def(dl) if dl is not None else None
+            if not d or d[0] != "stmt" or d[3]["k"] != "discr" or d[3]["place"]["p"]:
+                continue
+            src = d[3]["place"]["l"]
+            arms = {v: tg for v, tg in ti["arms"]}
+            if src in opt:      # Option: None = 0
+                dot_edges.append((i, arms.get(0, ti["otherwise"])))
+            elif src in trybr:  # ControlFlow: Break = 1 (the None of the searched Option)
+                dot_edges.append((i, arms.get(1, ti["otherwise"])))
     if not dot_edges:
         from facts import AnchorError
-        raise AnchorError("%s: the test for 'no directory part' (comparison with Path::new(\".\")) in realdirpath not located" % rid)
-    pth = rba.path([0], rba.returns(), avoid=frozenset(canon), cut_edges=frozenset(dot_edges), incl=True)
+        raise AnchorError("%s: the test for 'no directory part' (comparison with Path::new(\".\"), or a separator search that found nothing) in realdirpath not located" % rid)
+    from core import FAL
+    pth = FAL.of(rd).path([0], rba.returns(), avoid=frozenset(canon), cut_edges=frozenset(dot_edges), incl=True)
     ctx.ob(rid, "realdirpath|directory-part-always-canonicalised", pth is None, where=rd.span,
            detail="every return for a name with a directory part lies behind a canonicalize() call" if pth is None else
            "a name with a directory part can be returned without resolving symbolic links in it (%s): the same file reached through a symlinked directory gets a second record, lock and log" % rd.line(pth[-1]), witness=pth)
